@@ -407,6 +407,26 @@ pub fn c13(cx: &Ctx, rep: &mut Report) {
         for (n, xi) in crate::checks_a::rare_keygen_seeds(p, cx.seed, crate::checks_a::rare_cap(cx.tier)) {
             sks.push((format!("generated:model-selected:{n}"), refmodel::keygen_internal(p, &xi).sk));
         }
+        // E8: t0 / t1 / z polynomials that drive one output of the subject's forward transform to its largest integer value
+        // (a panic met during the search is not reported as such: the offending polynomial is put into a key / signature
+        // and goes through the public API like every other shape)
+        #[cfg(feature = "kernels")]
+        let growth: Vec<(String, i64, Poly)> = match crate::checks_e::growth_witnesses(p, cx.tier) {
+            Ok(g) => g.into_iter().map(|g| (g.class, g.sign, g.coeffs)).collect(),
+            Err(gp) => vec![(gp.class, 0, gp.coeffs)],
+        };
+        #[cfg(not(feature = "kernels"))]
+        let growth: Vec<(String, i64, Poly)> = Vec::new();
+        if growth.is_empty() {
+            rep.assumptions.push("forward-growth (E8) key and signature shapes not generated in this run (hooks unavailable or search stopped)".into());
+        }
+        for (class, sign, coeffs) in growth.iter().filter(|g| g.0 == "t0") {
+            for row in [0, p.k - 1] {
+                let mut t0 = base.t0.clone();
+                t0[row] = *coeffs;
+                sks.push((format!("forward-growth:{class}:sign{sign}:row{row}"), refmodel::sk_encode(p, &base.rho, &base.key, &base.tr, &base.s1, &base.s2, &t0)));
+            }
+        }
         sks.push(("all-00".into(), vec![0u8; p.sk_len]));
         sks.push(("all-ff".into(), vec![0xFFu8; p.sk_len]));
         sks.push(("shake".into(), refmodel::shake256(&[b"c13-sk"], p.sk_len)));
@@ -423,7 +443,22 @@ pub fn c13(cx: &Ctx, rep: &mut Report) {
             set_field(&mut b, 32 * 8 + (poly * 256 + 255) * 10, 10, 1023);
             pks.push((format!("one-hot:t1[{poly}][255]=1023"), b));
         }
-        let sigs = sig_shapes(p, &pkc0, cx.tier);
+        for (class, sign, coeffs) in growth.iter().filter(|g| g.0 == "t1") {
+            for row in [0, p.k - 1] {
+                let mut t1 = base.t1.clone();
+                t1[row] = *coeffs;
+                pks.push((format!("forward-growth:{class}:sign{sign}:row{row}"), refmodel::pk_encode(p, &base.rho, &t1)));
+            }
+        }
+        let mut sigs = sig_shapes(p, &pkc0, cx.tier);
+        for (class, sign, coeffs) in growth.iter().filter(|g| g.0 == "z") {
+            for row in [0, p.l - 1] {
+                let mut z = vec![POLY0; p.l];
+                z[row] = *coeffs;
+                let mp = refmodel::format_message(Mode::Pure, b"", b"").unwrap();
+                sigs.push((format!("forward-growth:{class}:sign{sign}:row{row}"), refmodel::forge_zero_t1(&pkc0, &mp, &z, &vec![POLY0; p.k], &vec![0u8; p.omega + p.k])));
+            }
+        }
         let msgs: Vec<Vec<u8>> = [0usize, 1, 136, 4096].iter().map(|&l| alpha::msg(l, 2)).collect();
         let ctxs: Vec<Vec<u8>> = [0usize, 255, 256].iter().map(|&l| alpha::ctx(l)).collect();
         for (pname, pkb) in &pks {
